@@ -34,6 +34,7 @@ Commands (answer lines are `id|...`):
     id|pymod|<expr>|<m>             -> id|<built>|<int>     built % m
     id|pycmp|<op>|<exprA>|<exprB>   -> id|True / False      op in == != < <= > >=
     id|pypow|<expr>|<k>             -> id|<result>          built ** k
+    id|pyneg|<expr>                 -> id|<result>          -built
     id|pyint|<expr>                 -> id|<built>|<int>     int(built); `toobig` when the log-size estimate
                                                              exceeds ~10^4 digits (int() is not called then)
     id|pytables                     -> id|<mod>:<k>=<v>,...;<mod>:...   the dict literals of
@@ -49,8 +50,11 @@ BB_PYCF=ltint the `isinstance(other, int)` branches of Add/Mul/Div/Exp.__lt__ (n
 int) are replaced AT RUN TIME, in this process only, by the exact comparison `int(x) < other`
 whenever x has at most ~10^4 digits.  With BB_PYCF=ltall the whole of those four __lt__ methods
 is replaced in the same way by `int(x) < int(other)` whenever both operands have at most ~10^4
-digits (the comparison heuristics between two symbolic operands as one site).  Nothing on disk
-is touched.
+digits (the comparison heuristics between two symbolic operands as one site).  With
+BB_PYCF=gcdexact the module function `gcd(l, r)` (num.py:1306-1347; used by the __floordiv__
+methods only) is replaced by `math.gcd(l, int(r))` whenever r has at most ~10^4 digits and every
+exponent inside it is >= 0 (the helper cannot see the value of a symbolic exponent).  Nothing on
+disk is touched.
 """
 import ast
 import os
@@ -219,6 +223,21 @@ def patch_ltall():
         cls.__lt__ = lt
 
 
+def patch_gcdexact():
+    import math
+    orig = N.gcd
+
+    def exact_gcd(l, r):
+        if isinstance(r, int):
+            return orig(l, r)
+        try:
+            log2_est(r)
+            return math.gcd(l, int(r))
+        except (TooBig, TypeError, NotImplementedError, ValueError):
+            return orig(l, r)
+    N.gcd = exact_gcd
+
+
 # ------------------------------------------------------------ commands
 
 def py_binop(op, a, b):
@@ -285,6 +304,9 @@ def run_case(f):
     if cmd == 'pypow':
         a = build(f[1])
         return ser(a ** int(f[2]))
+    if cmd == 'pyneg':
+        a = build(f[1])
+        return ser(-a)
     if cmd == 'pyint':
         a = build(f[1])
         try:
@@ -307,6 +329,8 @@ def main():
         patch_ltint()
     elif cf == 'ltall':
         patch_ltall()
+    elif cf == 'gcdexact':
+        patch_gcdexact()
     elif cf:
         sys.exit(f'unknown BB_PYCF={cf}')
     signal.signal(signal.SIGALRM, on_alarm)
